@@ -317,6 +317,7 @@ func (hc *histChecker) checkScript(op *Op, connID string) {
 
 func runC18(w *World) {
 	w.drawWeights()
+	w.drawNet(w.knob)
 	w.weights[akFault] = 0
 	w.cut = cutMode(w.knob("cut", 2))
 	n := w.addNode("n1", "10.0.0.1", 9851)
